@@ -520,6 +520,44 @@ def decimal_roundtrip(c):
             c.check('roundtrip_equal', back.value == v, detail=repr(back.value))
 
 
+DIGIT_SHAPES = [(3, 3), (5, 2), (1, 0), (1, 1), (10, 5), (4, 0)]
+
+
+def _digit_values(td, fd):
+    """values a Decimal(td, fd) admits, using every digit: pure fractions, largest magnitude, both signs"""
+    nines_i, nines_f = '9' * (td - fd), '9' * fd
+    vals = ['0', '-0.' + '1' * fd if fd else '-1', (nines_i or '0') + ('.' + nines_f if fd else ''),
+            '-' + (nines_i or '0') + ('.' + nines_f if fd else ''), '0.' + '0' * (fd - 1) + '1' if fd else '1']
+    return [decimal.Decimal(v) for v in vals]
+
+
+@obligation('C08.decimal.digit_restricted', bounded="6 (total_digits, fraction_digits) shapes x the type as declared, "
+            "customised once more (occurrence only) and twice more x 5 values using every admitted digit (both signs, pure "
+            "fractions) x 3 protocols",
+            targets=['spyne.model.primitive.number:Decimal._s_customize', 'spyne.protocol._inbase:InProtocolBase.decimal_from_unicode'],
+            desc="a digit-restricted Decimal, however often it is derived again, reads back the text written for every value "
+                 "it admits")
+def decimal_digit_restricted(c):
+    P = c.choose(sorted(PROTS), 'protocol')
+    prot = PROTS[P]()
+    td, fd = c.choose(DIGIT_SHAPES, 'digits')
+    level = c.choose([0, 1, 2], 'derived_again')
+    T = Decimal(td, fd)
+    for _ in range(level):
+        T = T.customize(min_occurs=1)
+    bad = []
+    for v in _digit_values(td, fd):
+        out = c.run(prot.to_unicode, T, v)
+        if not out.returned:
+            bad.append((str(v), repr(out)))
+            continue
+        s = out.value
+        back = c.run(prot.from_unicode, T, s)
+        if not (back.returned and back.value == v):
+            bad.append((str(v), s, repr(back)[:160]))
+    c.check('own_text_reads_back', not bad, detail=((td, fd), level, bad[:3]))
+
+
 @obligation('C08.double.roundtrip', bounded="14 representative doubles incl. subnormal, max, 1e16/1e22 boundaries",
             targets=['spyne.protocol._outbase:OutProtocolBase.double_to_unicode',
                      'spyne.protocol._inbase:InProtocolBase.double_from_bytes'],
@@ -690,3 +728,111 @@ def text_element_roundtrip(c):
     if back.returned:
         # (a carriage return is written as a character reference, so it survives line-end normalisation)
         c.check('same_text', back.value == t or (t == u'' and back.value in (u'', None)), detail=(back.value, t))
+
+
+# MessagePack sends an integer outside its native range as decimal text: that text form is part of this property too
+# (the obligation body is C02's, proved for every integer)
+from .c02_dict_fidelity import integer_split as _integer_split       # noqa: E402
+
+obligation('C08.msgpack.integer_text_form', targets=['spyne.protocol.msgpack:MessagePackDocument.integer_to_bytes',
+                                                     'spyne.protocol.msgpack:MessagePackDocument.integer_from_bytes'],
+           desc="for every integer v: MessagePack's integer_to_bytes returns v itself iff v is in the format's native range "
+                "[-2**63, 2**64) and its decimal text otherwise; integer_from_bytes reads either form back as v",
+           assumptions=["str(n)/int(text) are inverse (CPython)", "magnitudes below 10**40 for the text branch"])(_integer_split)
+
+
+# ------------------------------------------------------------------------------------------ thorough tier: generated values
+
+def _mk_generated(tname):
+    @obligation('C08.generated.%s' % tname, thorough_only=True,
+                targets=['spyne.protocol._outbase:OutProtocolBase.to_unicode', 'spyne.protocol._inbase:InProtocolBase.from_unicode'],
+                bounded="1500 values of %s generated from VERIF_SEED (spec/gen.py) x 3 protocols" % tname,
+                desc="generated values: the text written is a literal of the advertised xs: type and reads back as an equal "
+                     "value")
+    def ob(c):
+        from spec import gen
+        from spyne.model.primitive import DateTime, Date, Duration, Double, Uuid
+        P = c.choose(sorted(PROTS), 'protocol')
+        prot = PROTS[P]()
+        T, g, xs = {'Decimal': (Decimal, gen.dec, 'decimal'), 'Double': (Double, gen.double, 'double'),
+                    'DateTime': (DateTime, gen.datetime_, 'dateTime'), 'Date': (Date, gen.date_, 'date'),
+                    'Duration': (Duration, gen.duration, 'duration'), 'Integer': (number.Integer, gen.integer, 'integer'),
+                    'Unicode': (Unicode, gen.text, None)}[tname]
+        r = gen.rng(c.seed, 'C08/' + tname)
+        bad = []
+        for _ in range(1500):
+            v = g(r)
+            if v is None:
+                continue
+            o = c.run(prot.to_unicode, T, v)
+            if not o.returned:
+                bad.append((repr(v), repr(o)[:120]))
+                continue
+            s_ = o.value
+            if xs is not None and not in_lexical_space(c, xs, s_):
+                bad.append((repr(v), 'not an xs:%s literal' % xs, s_))
+                continue
+            b = c.run(prot.from_unicode, T, s_)
+            same = b.returned and b.value == v
+            if same and tname == 'DateTime' and v.tzinfo is not None:
+                same = b.value.utcoffset() == v.utcoffset()
+            if not same:
+                bad.append((repr(v), s_, repr(b)[:120]))
+        c.check('generated_values_roundtrip', not bad, detail=(len(bad), bad[:3]))
+    return ob
+
+
+for _t in ('Decimal', 'Double', 'DateTime', 'Date', 'Duration', 'Integer', 'Unicode'):
+    _mk_generated(_t)
+
+
+@obligation('C08.datetime.offsets_enumerated', targets=['spyne.protocol._inbase:InProtocolBase.datetime_from_unicode',
+                                                        'spyne.protocol._outbase:OutProtocolBase.datetime_to_unicode'],
+            bounded="every UTC offset from -14:00 to +14:00 in steps of 15 minutes (113 offsets) and 'Z', on one instant, x 3 "
+                    "protocols; literal read, and value written and read back",
+            desc="concrete companion of the symbolic offset proof (it refutes with an input when a change puts the code outside "
+                 "what the token matcher can follow): an xs:dateTime literal with any legal offset is read with that offset, "
+                 "and a value with that offset is written and read back unchanged")
+def datetime_offsets_enumerated(c):
+    import datetime as dt
+    P = c.choose(sorted(PROTS), 'protocol')
+    prot = PROTS[P]()
+    bad = []
+    for minutes in list(range(-14 * 60, 14 * 60 + 1, 15)) + ['Z']:
+        if minutes == 'Z':
+            lit, off = '2020-06-15T12:30:45Z', dt.timedelta(0)
+        else:
+            sign = '-' if minutes < 0 else '+'
+            lit = '2020-06-15T12:30:45%s%02d:%02d' % (sign, abs(minutes) // 60, abs(minutes) % 60)
+            off = dt.timedelta(minutes=minutes)
+        o = c.run(prot.from_unicode, DateTime, lit)
+        want = dt.datetime(2020, 6, 15, 12, 30, 45, tzinfo=dt.timezone(off))
+        if not (o.returned and isinstance(o.value, dt.datetime) and o.value.utcoffset() == off and o.value == want):
+            bad.append((lit, repr(o)[:120]))
+            continue
+        w = c.run(prot.to_unicode, DateTime, want)
+        b = c.run(prot.from_unicode, DateTime, w.value) if w.returned else w
+        if not (b.returned and b.value == want and b.value.utcoffset() == off):
+            bad.append((lit, 'written as', repr(w)[:80], 'read back', repr(b)[:80]))
+    c.check('every_offset_read_and_written', not bad, detail=(len(bad), bad[:3]))
+
+
+@obligation('C08.date.datetime_values', targets=['spyne.protocol._outbase:OutProtocolBase.date_to_unicode'],
+            bounded="4 datetime.datetime values (naive, UTC, fixed offsets, microseconds) given where a Date is declared x 3 protocols",
+            desc="a datetime.datetime is a datetime.date: given as the value of a Date it is written as the xs:date literal of "
+                 "its day and reads back as that day")
+def date_datetime_values(c):
+    import datetime as dt
+    P = c.choose(sorted(PROTS), 'protocol')
+    prot = PROTS[P]()
+    v = c.choose([dt.datetime(2020, 2, 29, 13, 14, 15), dt.datetime(1999, 12, 31, 23, 59, 59, 999999, dt.timezone.utc),
+                  dt.datetime(2021, 6, 1, 0, 0, 0, 0, dt.timezone(dt.timedelta(hours=5, minutes=30))),
+                  dt.datetime(1, 1, 1, 0, 0, 0)], 'value')
+    out = c.run(prot.to_unicode, Date, v)
+    c.check('encodes', out.returned, detail=repr(out))
+    if not out.returned:
+        return
+    s = out.value
+    c.check('lexical_space', in_lexical_space(c, 'date', s), detail=repr(s))
+    back = c.run(prot.from_unicode, Date, s)
+    c.check('decodes_to_the_day', back.returned and back.value == v.date(), detail=(repr(s), repr(back)))
